@@ -423,6 +423,8 @@ impl OsIpcSender {
         let (dedicated_tx, dedicated_rx) = channel()?;
         // Extract FD handle without consuming the Receiver, so the FD doesn't get closed.
         fds.push(dedicated_rx.fd.get());
+        // Our copy of the receive end is only needed until the first fragment has carried it over.
+        let mut dedicated_rx = Some(dedicated_rx);
 
         // Split up the packet into fragments.
         let mut byte_position = 0;
@@ -457,8 +459,15 @@ impl OsIpcSender {
                 }
             }
 
+            if byte_position == 0 {
+                // The receive end now travels with the first fragment. Close our copy: if the
+                // receiver goes away, the remaining fragments fail instead of blocking forever
+                // on a socket that only this sender keeps alive.
+                dedicated_rx = None;
+            }
             byte_position = end_byte_position;
         }
+        drop(dedicated_rx);
 
         Ok(())
     }
